@@ -97,3 +97,26 @@ def env : Env where
   clientCaps := ["urn:ietf:params:netconf:base:1.0".toList, "urn:ietf:params:netconf:base:1.1".toList]
   joins := false
 end NcVerif.C03demo
+
+namespace NcVerif.SessionSpec
+open NcVerif NcVerif.Session NcVerif.Framing
+
+/-- Let the worker dispatch everything the parser produced for the last read (no other thread runs). -/
+def drain (env : Env) : Nat → World → World
+  | 0, w => w
+  | fuel + 1, w =>
+    match w.pc with
+    | .dispatching _ => drain env fuel (step env w .wDispatch)
+    | _ => w
+
+/-- One uninterrupted receive iteration of the worker: `select` reports the descriptor, `seg` is read,
+    parsed, and every resulting message dispatched. -/
+def readSeg (env : Env) (w : World) (seg : Bytes) : World :=
+  let w1 := step env (step env w (.wSelect true)) (.wRead (.data seg))
+  let w2 := drain env (match w1.pc with | .dispatching t => t.length + 1 | _ => 0) w1
+  -- back at the top of the loop with nothing to send: go to select again
+  if w2.pc = .top then step env w2 (.wTop false) else w2
+
+def readSegs (env : Env) (w : World) (segs : List Bytes) : World := segs.foldl (readSeg env) w
+
+end NcVerif.SessionSpec
